@@ -118,6 +118,12 @@ def step (d : DState) (ws : List String) : DState × String :=
       if (d.s.result j).isNone then (d, "notready") else
       client d (.wait j) s!"res={resStr (d.s.result j)} "
     | none => (d, "bad-op")
+  | ["stress", a, b] =>
+    -- free-running stress rounds: judged by the Go-side oracle only
+    match a.toNat?, b.toNat? with
+    | some w, some n =>
+      if 2 ≤ w ∧ w ≤ 64 ∧ 1 ≤ n ∧ n ≤ 1000000 then ({ d with active := false }, "ok") else (d, "bad-op")
+    | _, _ => (d, "bad-op")
   | ["free", a, b, c] =>
     -- free-running case: judged by the Go-side oracle only
     match a.toNat?, b.toNat?, c.toNat? with
